@@ -489,6 +489,14 @@ theorem C18_alloc_gzip (G : GFrame) (hB : BoundedDec G.Z) (B : Nat) (hB1 : 1 ≤
     (gzipDecode G (some cap)).peak ≤ cap + B :=
   Aux.gzipLoop_peak G.Z hB B hB1 hF cap _ _ _ _ _ _ (Nat.zero_le _)
 
+/-- **C18_library_defaults** — the decoders the contracts of `Spec/C18.lean` are assumed of are the ones the code builds:
+every `ZstdDecompressor` is constructed with the library defaults (no window / memory limit of its own, so every frame a
+compressor level or `--long` ≤ 27 can write is decodable) and the inflater is a gzip-wrapped 32 KiB one (`wbits = 31`). -/
+theorem C18_library_defaults :
+    (∀ a ∈ Gen.Codec.zstdDecompressorCalls, a = "") ∧ Gen.Codec.zstdDecompressorCalls ≠ [] ∧
+    (∀ a ∈ Gen.Codec.gzipDecompressobjCalls, a = "_GZIP_WBITS") ∧ Gen.Codec.gzipDecompressobjCalls ≠ [] ∧
+    Gen.Codec.gzipWbits = 31 := by decide
+
 /-! ### non-vacuity: the contracts are satisfiable -/
 
 /-- the reader that always delivers as much as it may -/
